@@ -83,6 +83,9 @@ type SiteAssert struct {
 	// Assume: `after call <callee>[#k] assume <expr>` -- a stated assumption about what the
 	// environment returned at that site (res0, res1, ...: the results); reported in the evidence
 	Assume bool
+	// Store: `before store T.f assert E` -- at every store to field f of a struct of type T
+	// (`target` is the pointer to the struct, `val` the value stored)
+	Store bool
 	Callee   string
 	Ord      int  // 0 = every site
 	Optional bool // may match no site at all (policy assertion)
@@ -267,6 +270,12 @@ func parseContracts(src, pkgName, file string) ([]*Contract, map[string]*define,
 				rest = rest[4:]
 			}
 			k := strings.Index(rest, " assert ")
+			if strings.HasPrefix(rest, "store ") && k >= 0 {
+				cur.Asserts = append(cur.Asserts, SiteAssert{Store: true, Callee: strings.TrimSpace(rest[6:k]), Cl: Clause{Text: strings.TrimSpace(rest[k+8:]), Line: line, Tag: curTag}})
+				c := cur
+				lastAppend = func(s string) { c.Asserts[len(c.Asserts)-1].Cl.Text += " " + s }
+				break
+			}
 			if !strings.HasPrefix(rest, "call ") || k < 0 {
 				return nil, nil, fmt.Errorf("%s:%d: before call <callee>[#k] assert <expr>", file, line)
 			}
@@ -372,7 +381,7 @@ func parseContracts(src, pkgName, file string) ([]*Contract, map[string]*define,
 var rawDirectives = map[string]bool{
 	"kind": true, "effect": true, "governs": true, "ungoverned": true, "denial": true, "assume_stable": true,
 	"record_writer": true, "stream_writer": true, "pure": true, "gate": true, "note": true,
-	"expect": true, "replay": true, "first_defer": true, "balance": true, "guarded_by": true, "crash_atomic": true,
+	"expect": true, "replay": true, "first_defer": true, "balance": true, "guarded_by": true, "cursor_flow": true, "crash_atomic": true,
 	"wire": true, "cursor": true, "split": true, "roundtrip": true, "anyname": true, "site": true,
 }
 
